@@ -621,7 +621,12 @@ func (s *sim) applyCall(in *inst, ents []entry, replay bool) {
 			if in.w.has[r.id] {
 				if _, dup := in.replies[i]; !dup {
 					in.replies[i] = render(in.w.got[r.id])
-					s.lg("reply", "%d req=%d %s", in.idx, i, in.replies[i])
+					if s.onHLLKey(r) {
+						// may depend on the run-to-run random bytes of a written-back sketch: keep it out of the trace hash
+						s.lg("reply", "%d req=%d (on a HyperLogLog key)", in.idx, i)
+					} else {
+						s.lg("reply", "%d req=%d %s", in.idx, i, in.replies[i])
+					}
 				}
 			} else if in.w.reg[r.id] {
 				// a registered waiter that never got an answer: the client would hang
@@ -750,6 +755,9 @@ func (s *sim) stepBackup(in *inst) {
 	if in.sm == nil || in.dead != "" || in.applied == 0 {
 		return
 	}
+	// Backup hands the request to the store's backup goroutine with a
+	// non-blocking send: let that goroutine reach its receive first
+	synctest.Wait()
 	si, err := in.sm.GetSnapshot(1, uint64(in.applied))
 	// Backup writes the HyperLogLog cache back before it even queues the checkpoint
 	in.flushAt = append(in.flushAt, in.applied)
@@ -881,4 +889,17 @@ func (s *sim) lg(kind string, format string, args ...interface{}) {
 	if traceOn {
 		fmt.Fprintf(core.Stdout, "%s %s\n", kind, fmt.Sprintf(format, args...))
 	}
+}
+
+// onHLLKey: does r touch a KV/bitmap key that a pfadd of the log touches too?
+func (s *sim) onHLLKey(r *req) bool {
+	for _, k := range r.keys {
+		i := strings.IndexByte(k, '|')
+		if k[:i] == clKV || k[:i] == clBit {
+			if _, ok := s.firstPfadd[k[i+1:]]; ok {
+				return true
+			}
+		}
+	}
+	return false
 }
